@@ -5,16 +5,23 @@ self-addressed sends; oracle: every client Deferred fires within 600 s of
 virtual time and, at quiescence, no node lock and no qubit lock is held."""
 from .. import core
 from .. import schedcase
+from .. import skeltrace
 
 LEAN_TARGETS = ["SqVerif.Props.C04", "SqVerif.Props.C04Live"]
 PROPS_FILE = ["SqVerif/Props/C04Skel.lean", "SqVerif/Props/C04Live.lean"]
-DRIVE_TARGETS = ["SqVerif.Drive.VNet"]
+DRIVE_TARGETS = ["SqVerif.Drive.VNet", "SqVerif.Drive.Skel"]
 TRUSTED = [
     "harness/simnet.py: fake reactor + Perspective Broker over in-memory pipes, one schedulable event per PB message, "
     "per-connection FIFO, fake clock (virtual time: a 600 s hang costs milliseconds)",
     "harness/schedcase.py: attribution of messages/timers to operations, schedule policies, lock monitor "
     "(twisted DeferredLock.acquire/release wrapped from outside)",
-    "AST translator harness/gen/skel.py (skeletons of virtual.py / quantum.py for locks_balanced / hold-and-wait analysis)",
+    "AST translator harness/gen/skel.py (skeletons of virtual.py / quantum.py for locks_balanced / hold-and-wait analysis): "
+    "validated dynamically by trace acceptance (harness/skeltrace.py: every activation of a translated method recorded on "
+    "the real code -- node/qubit lock operations, mutations of virtQubits/simQubits/registers, node-method calls, with roles, "
+    "and how it ended -- must be a path of its skeleton: Skel.accepts, sound by trace_acceptance_ret/exc/open); not compared: "
+    "guards, asserts, aliases, cancel, raise kinds, calls on simulated-qubit/engine objects, other fields",
+    "harness/skeltrace.py: attribution of events to activations (contextvar frame + source text of the call expression), "
+    "mapping of concrete nodes / simulated qubits to role sets",
 ]
 ASSUMPTIONS = [
     "stabilizer backend, three nodes, at most two client connections per node; 1-2 concurrent operations exhaustively at "
@@ -33,7 +40,9 @@ def gen(ctx):
 
 
 def run(ctx):
-    return schedcase.check(ctx, "C04")
+    res = schedcase.check(ctx, "C04")
+    skeltrace.tie(ctx, res, "C04")
+    return res
 
 
 def search(ctx, res, broken):
